@@ -11,7 +11,47 @@ FOREVER = "pc = 0;\nStat = STAT_AOK;\n"
 ERRSTAT = "pc = 0;\nStat = STAT_INS;\n"
 ABORTS = "register pP { c : 8 = 0; }\np_c = P_c + 1;\npc = 0;\nwire d : 8;\nd = 7 / (2 - P_c);\nStat = STAT_AOK;\n"
 REJECTED = "wire x : 8;\npc = 0;\nStat = STAT_AOK;\n"
-OPTIONS = ["-c", "--check", "-d", "-q", "-t", "-h", "--help", "--ungroup-debug-wires", "--trace-assignments", "--version", "--bogus", "-Z"]
+OPTIONS = ["-c", "--check", "-d", "--debug", "-q", "--quiet", "-t", "--testing", "-h", "--help", "-i", "--interactive",
+           "--ungroup-debug-wires", "--trace-assignments", "--version", "--bogus", "-Z", "-dq", "-qt", "-tdi", "-cq", "-dd", "--debug=1", "--chec", "-"]
+SHORT = {"c": "check", "d": "debug", "q": "quiet", "t": "testing", "h": "help", "i": "interactive"}
+LONG = set(SHORT.values()) | {"ungroup-debug-wires", "trace-assignments", "version"}
+
+
+def budget(free):
+    """The cycle budget the third positional denotes (u32 grammar), the default when absent, -1 when malformed."""
+    if len(free) < 3:
+        return 9999
+    t = free[2][1:] if free[2].startswith("+") else free[2]
+    if t and all(c in "0123456789" for c in t) and int(t) < 2 ** 32:
+        return int(t)
+    return -1
+
+
+def getopts(args):
+    """What the getopts crate does with this option table (all flags, no arguments): (ok, flags, free)."""
+    seen, free = [], []
+    i = 0
+    while i < len(args):
+        a = args[i]
+        i += 1
+        if a == "--":
+            free += args[i:]
+            break
+        if a.startswith("--"):
+            name = a[2:]
+            if "=" in name or name not in LONG:
+                return False, set(), []
+            seen.append(name)
+        elif a.startswith("-") and len(a) > 1:
+            for ch in a[1:]:
+                if ch not in SHORT:
+                    return False, set(), []
+                seen.append(SHORT[ch])
+        else:
+            free.append(a)
+    if len(seen) != len(set(seen)):
+        return False, set(), []
+    return True, set(seen), free
 TIMEOUTS = [None, "0", "1", "3", "9999", "4294967295", "4294967296", "-1", "abc", "", "+5", "007", "1 ", "99999999999999999999"]
 
 
@@ -41,7 +81,7 @@ def check(report, tier, seed):
             open(named[nm], "w").write(gen.yo_line(0, b"\x30\xf4") + "\n")
         cases = []
         for k in range(n):
-            opts = [o for o in OPTIONS if rng.random() < (0.12 if o in ("-h", "--help", "--version", "--bogus", "-Z") else 0.25)]
+            opts = [o for o in OPTIONS if rng.random() < (0.07 if o in ("-h", "--help", "--version", "--bogus", "-Z", "-dd", "--debug=1", "--chec", "-") else 0.13)]
             rng.shuffle(opts)
             hk = rng.choice(["halting", "halting", "forever", "errstat", "aborts", "rejected", "missing"])
             hcl_path = files.get(hk + ".hcl", os.path.join(d, "nonexistent.hcl"))
@@ -60,16 +100,23 @@ def check(report, tier, seed):
             args = list(opts)
             pos = rng.randint(0, len(args))
             args = args[:pos] + free + args[pos:]
-            # what the model needs to know about this invocation
-            groups = [("-c", "--check"), ("-h", "--help")]
-            twice = any(sum(o in g for o in opts) > 1 for g in groups)
-            opts_ok = (not any(o in ("--bogus", "-Z") for o in opts) and not twice
-                       and not any(f.startswith("-") and len(f) > 1 for f in free))
-            inv = {"opts_ok": opts_ok, "help": any(o in ("-h", "--help") for o in opts), "version": "--version" in opts,
-                   "check": any(o in ("-c", "--check") for o in opts),
+            if rng.random() < 0.1:
+                # "--" ends the options: everything after it is positional, whatever it looks like
+                cut = rng.randint(0, len(args))
+                args = args[:cut] + ["--"] + args[cut:]
+            # what the model needs to know about this invocation: the option syntax as the getopts crate reads it
+            opts_ok, flags, free = getopts(args)
+            # what the positionals really are (the terminator and a lone "-" can shift them)
+            hcl_kind = {files[k]: k[:-4] for k in files}
+            hk = hcl_kind.get(free[0], "missing") if free else hk
+            yo_kind = {good_yo: "good", wrong_ext: "wrongext", bad_yo: "bad", invalid_utf8_yo: "latin"}
+            yo_kind.update({v: "good" for v in named.values()})
+            yk2 = yo_kind.get(free[1], "missing") if len(free) > 1 else "missing"
+            inv = {"opts_ok": opts_ok, "help": "help" in flags, "version": "version" in flags,
+                   "check": "check" in flags,
                    "hcl": "U" if hk == "missing" else "R" if hk == "rejected" else "A",
-                   "yo": "M" if yk == "missing" else "U" if yk in ("bad", "latin") else "L",
-                   "sim": "A" if hk == "aborts" else "C", "free": free}
+                   "yo": "M" if yk2 == "missing" else "U" if yk2 in ("bad", "latin") else "L",
+                   "sim": "A" if hk == "aborts" and budget(free) >= 3 else "C", "free": free}   # the division by zero happens in the third cycle
             cases.append((args, inv, hk))
         lines = []
         for i, (args, inv, hk) in enumerate(cases):
@@ -106,13 +153,13 @@ def check(report, tier, seed):
                 t = int(want[3])
                 if hk == "forever" and ("timed out after %5d cycles" % t) not in out:
                     report.violation("cli-timeout-not-honoured", "timeout %d not honoured: %s" % (t, out[-200:]), rep)
-                if hk == "halting" and t >= 3 and "Cycles run: 3" not in out:
+                if hk == "halting" and t > 3 and "Cycles run: 3" not in out:      # at t == 3 halt and timeout coincide: no "Cycles run" line (kept observation)
                     report.violation("cli-wrong-run", "halting program did not report 3 cycles", rep)
                 if hk == "errstat" and t >= 2 and "Error code: 4" not in out:
                     report.violation("cli-wrong-run", "error status not reported", rep)
     report.coverage["evaluations"] = len(cases)
     report.coverage["distinct_nontrivial"] = len(set(tuple(a) for a, _, _ in cases))
-    report.coverage["rule"] = ("argument vectors: random subsets of the nine options (+ two unknown ones) around 0-4 positionals; HCL file valid (halting, running "
+    report.coverage["rule"] = ("argument vectors: random subsets of the ten options in short, long and combined (-dq) spellings, unknown, doubled, abbreviated and valued ones, a lone -, the -- terminator, around 0-4 positionals; HCL file valid (halting, running "
                                "forever, error status, aborting with division by zero), rejected or missing; image valid, missing, wrong extension, unloadable, "
                                "not UTF-8; timeouts absent 0 1 3 9999 2^32-1 2^32 -1 abc '' +5 007 '1 ' 10^20; the real binary's exit status and outcome class "
                                "(usage / version / syntax OK / final state / message) against Cli.main_model, and the printed cycle counts against the timeout")
